@@ -81,6 +81,63 @@ func alterations(h *NetH, p Pkt) []Pkt {
 	return out
 }
 
+// malformed relayer / user messages: every one must be refused and change nothing (the message-level
+// ValidateBasic checks, CleanPacket.ValidateBasic, unknown next hops).  Added after the statement-
+// coverage audit (tools/cover.sh) showed that no generated input reached these refusal branches.
+func famMalformed() netFamily {
+	return netFamily{"malformed-messages-are-refused-and-change-nothing", func(h *NetH) {
+		A, B, C := h.names[0], h.names[1], h.names[2]
+		p := h.sendOK(0, Pkt{1, A, B, "", "tibcmock", "~m1"})
+		h.UpdateClient(1, 0)
+		ht := h.latestKnown(1, 0)
+		// receive: proof height 0, empty proof, sequence 0, empty data, ill-formed chain names
+		h.Recv(1, p, ProofSpec{0, commitKey(p)}, 0)
+		h.forgeNext = "empty"
+		h.Recv(1, p, ProofSpec{0, commitKey(p)}, ht)
+		for _, q := range []Pkt{
+			{0, A, B, "", "tibcmock", "~m1"}, {1, A, B, "", "tibcmock", ""}, {1, "a", B, "", "tibcmock", "~m1"},
+			{1, A, "short", "", "tibcmock", "~m1"}, {1, A, B, "x/y", "tibcmock", "~m1"}, {1, A + "/x", B, "", "tibcmock", "~m1"},
+			{1, A, B + "%41", "", "tibcmock", "~m1"}, {1, strings.Repeat("n", 65), B, "", "tibcmock", "~m1"},
+		} {
+			h.Recv(1, q, ProofSpec{0, commitKey(p)}, ht)
+			h.Send(0, q)
+		}
+		// sends to an unknown destination / through an unknown relay chain
+		h.Send(0, Pkt{2, A, "ghostchain", "", "tibcmock", "~g"})
+		h.Send(0, Pkt{2, A, B, "ghostchain", "tibcmock", "~g"})
+		h.Recv(1, p, ProofSpec{0, commitKey(p)}, ht) // the genuine one
+		// acknowledgement: height 0, empty proof, empty acknowledgement, sequence 0
+		h.UpdateClient(0, 1)
+		ha := h.latestKnown(0, 1)
+		h.Ack(0, p, mockAck, ProofSpec{1, ackKey(p)}, 0)
+		h.forgeNext = "empty"
+		h.Ack(0, p, mockAck, ProofSpec{1, ackKey(p)}, ha)
+		h.Ack(0, p, "", ProofSpec{1, ackKey(p)}, ha)
+		h.Ack(0, Pkt{0, A, B, "", "tibcmock", "~m1"}, mockAck, ProofSpec{1, ackKey(p)}, ha)
+		h.Ack(0, p, mockAck, ProofSpec{1, ackKey(p)}, ha) // genuine
+		// clean requests: sequence 0, ill-formed names, unknown destination, unknown relay chain
+		for _, cp := range []CPkt{
+			{0, A, B, ""}, {1, A, "short", ""}, {1, A, B + "/x", ""}, {1, A, B, "r/"}, {1, "a", B, ""},
+			{1, A, "ghostchain", ""}, {1, A, B, "ghostchain"},
+		} {
+			h.Clean(0, cp)
+		}
+		h.Clean(0, CPkt{1, A, B, ""}) // genuine
+		h.UpdateClient(1, 0)
+		hc := h.latestKnown(1, 0)
+		// receive-clean: height 0, empty proof, sequence 0, ill-formed names, a source chain without client
+		h.RecvClean(1, CPkt{1, A, B, ""}, ProofSpec{0, cleanKey(A, B)}, 0)
+		h.forgeNext = "empty"
+		h.RecvClean(1, CPkt{1, A, B, ""}, ProofSpec{0, cleanKey(A, B)}, hc)
+		for _, cp := range []CPkt{{0, A, B, ""}, {1, A, "short", ""}, {1, A + "/", B, ""}, {1, "ghostchain", B, ""}, {1, A, B, "ghostchain"}} {
+			h.RecvClean(1, cp, ProofSpec{0, cleanKey(A, B)}, hc)
+		}
+		// ... and at a relay chain that does not know the destination
+		h.RecvClean(2, CPkt{1, A, "ghostchain", C}, ProofSpec{0, cleanKey(A, B)}, hc)
+		h.RecvClean(1, CPkt{1, A, B, ""}, ProofSpec{0, cleanKey(A, B)}, hc) // genuine
+	}}
+}
+
 // ---- C01 ---------------------------------------------------------------------------------
 
 func famC01(t *testing.T) []netFamily {
